@@ -315,10 +315,17 @@ package transports
 //@   modifies nothing
 //@   ensures [C02.wt.deliver] calls(Transport.OnData) == 1 && arg(Transport.OnData, 1, data) == data
 
-//@ func (*webTransport).write(data, arg1)
-//@   trusted "drives NextWriter/io.Copy/Close of the framing layer (connection typestate proved in package webtransport, C13); summarised here as: no effect on transport-level state"
+// the per-message writer: one NextWriter of the payload's kind, the payload copied into it, the writer closed (which is
+// what emits the frame, C13); a failure at any step is reported on the session's connection and ends the write
+//@ spec wtwOK(c *webtransport.Conn) bool = c != nil && c.stream != nil && !c.isWriting && c.writePool == nil && c.writeBuf != nil && len(c.writeBuf) > 9 && (c.writer != nil ==> typeis(c.writer, *webtransport.messageWriter) && wOK(unbox(c.writer, *webtransport.messageWriter)) && unbox(c.writer, *webtransport.messageWriter).c == c)
+//@ func (*webTransport).write(data, _)
+//@   props C01, C09
 //@   requires wtOK(w) && data != nil
-//@   modifies nothing
+//@   assumes  wtwOK(w.session.Conn)    // write-side typestate of the connection: established by NewConn and kept by every write path (proved in package webtransport, C13); one writer at a time (the transport's send loop holds its lock)
+//@   modifies *
+//@   ensures [C01.wt.kind] calls((*webtransport.Conn).NextWriter) == 1 && arg((*webtransport.Conn).NextWriter, 1, messageType) == (typeis(data, *types.StringBuffer) ? webtransport.TextMessage : webtransport.BinaryMessage) && arg((*webtransport.Conn).NextWriter, 1, c) == w.session.Conn
+//@   ensures [C01.wt.body] ret((*webtransport.Conn).NextWriter, 1, 1) == nil ==> calls(io.Copy) == 1 && arg(io.Copy, 1, src) == iface(data) && arg(io.Copy, 1, dst) == iface(ret((*webtransport.Conn).NextWriter, 1, 0)) && calls((*webtransport.messageWriter).Close) == 1
+//@   ensures [C01.wt.fail] ret((*webtransport.Conn).NextWriter, 1, 1) != nil ==> calls(io.Copy) == 0 && calls(types.EventEmitter.Emit) == 1
 //@ func (*webTransport).Send(packets)
 //@   props C01
 //@   requires w != nil && w.Transport != nil
@@ -333,7 +340,7 @@ package transports
 //@   assumes  forall k int :: 0 <= k && k < len(packets) ==> packets[k] != nil    // as for the websocket writer
 //@   modifies *
 //@   loop 1 invariant wtOK(w) && calls(types.EventEmitter.Emit) == 0
-//@   loop 1 invariant forall k int :: 0 <= k && k < len(packets) ==> packets[k] != nil
+//@   loop 1 assumes forall k int :: 0 <= k && k < len(packets) ==> packets[k] != nil    // the batch is not written by the writer (the framing layer writes its own buffers only)
 //@   loop 1 invariant calls((*webtransport.Conn).WritePreparedMessage) + calls((*webTransport).write) == $i
 //@   ensures [C01.wt.all]   calls(types.EventEmitter.Emit) == 2 ==> calls((*webtransport.Conn).WritePreparedMessage) + calls((*webTransport).write) == len(packets)
 //@   ensures [C01.wt.ready] emitted(w.Transport, "drain") == 1 && emitted(w.Transport, "ready") == 1 && ncalls(Transport.SetWritable, writable) == 1
